@@ -20,6 +20,16 @@ Families (alphabets):
          of client c2 of the other trust domain), ENK (XCM_TLS_CERT kube <-> live: default-directory form),
          S:def|kube, C:def/inh kube/inh def/kube c2/inh, X, XS.  The model takes what the path RESOLVES to at
          call time.
+  netns  default credential files named after the network namespace of the calling THREAD (xcm.h, Per-network
+         Namespace Certificates): XCM_TLS_CERT holds <item>.pem (set 0), <item>_nsA.pem (set A), <item>_nsB.pem (set B).
+         Fixture per worker: private mount namespace, tmpfs over /run/netns, two new network namespaces bind-mounted
+         as nsA / nsB.  SN0 SNA SNB (the main thread enters a namespace with setns), FKA FKB (fork: the rest of
+         the history runs in the child, which first enters nsA / nsB), S:def, C:def/inh, S:def@tB, C:def/inh@tA,
+         C:def/inh@tB (the same calls made by a fresh thread that enters the namespace first), X, XS.  Oracle: the
+         peer-visible identity and tls.cert_file are those of the namespace the calling thread is in when
+         xcm_server / xcm_connect is called; accepted sockets take the server's.  Connections are only attempted
+         within one namespace and one process (loopback TCP does not cross namespaces).  Skipped with an INFO line
+         when unshare/mount/setns are not permitted.
   split  by-value configurations whose item boundaries differ but whose concatenation is equal
          (s1: cert=leaf+intermediate,key=key  s2: cert=leaf,key=intermediate+key;
           s3: key=key+root2,tc=root  s4: key=key,tc=root2+root), s5 = s4 with tc=root only (differs in ONE item),
@@ -84,13 +94,14 @@ def plan(tier):
     The deepest levels come last so that a tier deadline cuts those."""
     bad = bad_families()
     if tier == "quick":
-        return [[("main", 3, "plain")], [("kube", 3, "plain")], [("split", 3, "plain")], [("files", 4, "plain")],
-                [("main", 2, "asan"), ("split", 2, "asan"), ("kube", 2, "asan")],
+        return [[("main", 3, "plain")], [("kube", 3, "plain")], [("netns", 4, "plain")], [("split", 3, "plain")],
+                [("files", 4, "plain")],
+                [("main", 2, "asan"), ("split", 2, "asan"), ("kube", 2, "asan"), ("netns", 2, "asan")],
                 [(f, 3, "plain") for f in bad]]
     # main contains the alphabets of files and attrs, so main d covers them to depth d
-    return [[("main", 4, "plain")], [("kube", 4, "plain")], [("split", 4, "plain")],
+    return [[("main", 4, "plain")], [("kube", 4, "plain")], [("netns", 5, "plain")], [("split", 4, "plain")],
             [(f, 4, "plain") for f in bad],
-            [("main", 3, "asan"), ("split", 3, "asan"), ("kube", 3, "asan")],
+            [("main", 3, "asan"), ("split", 3, "asan"), ("kube", 3, "asan"), ("netns", 3, "asan")],
             [(f, 2, "asan") for f in bad],
             [(f, 5, "plain") for f in bad],
             [("files", 6, "plain")], [("main", 5, "plain")]]
@@ -181,6 +192,7 @@ def run(chk, tier, jobs, deadline):
     tot = dict(histories=0, steps=0, conn_attempts=0, conn_established=0, refused=0, eproto=0, keepalive=0,
                identity=0, ctx=0, crashes=0, abandoned=0, infeasible=0)
     all_complete = True
+    skipped = {}
     try:
         mat = prepare_material(os.path.join(root, "mat"))
         import itertools
@@ -251,6 +263,10 @@ def run(chk, tier, jobs, deadline):
                                     (j["text"], family, j["history"], j["count"]), rep)
                     elif k == "sample" and len(samples) < 12 and j["text"].count(",") >= 2:
                         samples.append(dict(family=family, history=j["text"]))
+                    elif k == "skipped":
+                        done_skip = j.get("reason", "")
+                        chk.info("netns-family-skipped", "netns family skipped (no privilege): %s" % done_skip)
+                        skipped["netns_family"] = "skipped (no privilege): %s" % done_skip
                     elif k == "broke":
                         chk.broke("%s: %s" % (family, j["text"]))
                     elif k == "done":
@@ -314,5 +330,6 @@ def run(chk, tier, jobs, deadline):
                 ssl_ctx_created=tot["ctx"], crashes=tot["crashes"], histories_abandoned_at_a_violation=tot["abandoned"],
                 infeasible_extensions_pruned=tot["infeasible"], completed_depth_per_family=depths,
                 families=len(set(p["family"] for p in per_family)), per_family=per_family,
+                netns_family=skipped.get("netns_family", "run"),
                 samples=samples or [dict(note="no history of length >= 3 completed")],
                 exhaustive=all_complete and not chk.deadline_hit)
